@@ -1141,7 +1141,7 @@ func checkC20(tier string, seed int, t0 time.Time) int {
 		os.WriteFile(rp, js, 0o644)
 		samples = append(samples, map[string]interface{}{"trace": trace, "blocked": blocked})
 		// replay: the blocked worker operation must be a send on sigSuspend/sigResume performed by suspend/resume
-		reproduced, rnote := replayC20(blocked)
+		reproduced, rnote := replayC20(blocked, trace)
 		notes = append(notes, rnote)
 		var kf *KnownFinding
 		for i := range known {
@@ -1243,14 +1243,34 @@ func checkC20(tier string, seed int, t0 time.Time) int {
 
 // replayC20 confirms a deadlock natively: with quit closed and the real follower returned, the real
 // suspend/resume call that the worker is blocked in must still be blocked after 2 seconds.
-func replayC20(blocked []string) (bool, string) {
+func replayC20(blocked []string, trace []string) (bool, string) {
 	op := ""
+	followerStuck := false
 	for _, b := range blocked {
 		if strings.HasPrefix(b, "worker blocked at send sigSuspend") {
 			op = "suspend"
 		}
 		if strings.HasPrefix(b, "worker blocked at send sigResume") {
 			op = "resume"
+		}
+		if strings.HasPrefix(b, "follower blocked at recv sigResume") {
+			followerStuck = true
+		}
+	}
+	if op == "" && followerStuck {
+		// the worker left a task function after the suspend hand-shake without resuming
+		fn := ""
+		for _, l := range trace {
+			if strings.HasPrefix(l, "worker:") {
+				for _, f := range []string{"asyncImport", "asyncRemove"} {
+					if strings.HasSuffix(l, "@"+f) {
+						fn = f
+					}
+				}
+			}
+		}
+		if fn != "" {
+			return replayC20TaskLeak(fn)
 		}
 	}
 	if op == "" {
@@ -1309,6 +1329,128 @@ func TestVerifC20Replay(t *testing.T) {
 		return true, "native replay: after close(quit) the real handle() returned and the real " + op + "() was still blocked after 2s"
 	case strings.Contains(txt, "VERIF-C20 not-blocked"):
 		return false, "native replay: " + op + "() returned (not blocked)"
+	}
+	return false, "native replay inconclusive: " + tail(txt, 6)
+}
+
+// replayC20TaskLeak confirms natively that the real follower stays parked after the real task function fn
+// failed in its database transaction: a real WalletManager over temporary databases (the package's own test
+// helpers), the real handle() goroutine, fn called with a database whose BeginTx fails; afterwards a fresh
+// suspend() must still be blocked after 2 s and, with quit closed, handle() must not return within 2 s.
+func replayC20TaskLeak(fn string) (bool, string) {
+	tmp, err := os.MkdirTemp("", "verif-c20-")
+	if err != nil {
+		return false, err.Error()
+	}
+	defer os.RemoveAll(tmp)
+	call := "_, _ = h.asyncImport(id)"
+	if fn == "asyncRemove" {
+		call = "_ = h.asyncRemove(id)"
+	}
+	test := `//go:build verif
+
+package masswallet
+
+import (
+	"errors"
+	"fmt"
+	"sync/atomic"
+	"testing"
+	"time"
+
+	"massnet.org/mass-wallet/config"
+	mwdb "massnet.org/mass-wallet/masswallet/db"
+)
+
+type verifFailDB struct {
+	mwdb.DB
+	armed int32
+}
+
+func (d *verifFailDB) BeginTx() (mwdb.DBTransaction, error) {
+	if atomic.LoadInt32(&d.armed) == 1 {
+		return nil, errors.New("verif: injected database error")
+	}
+	return d.DB.BeginTx()
+}
+
+func TestVerifC20Replay(t *testing.T) {
+	chainDb, closeChain, err := newTestChainDB(2)
+	if err != nil {
+		fmt.Println("VERIF-C20 setup-failed", err)
+		return
+	}
+	defer closeChain()
+	rawDb, teardown, err := testDB("verifC20Replay")
+	if err != nil {
+		fmt.Println("VERIF-C20 setup-failed", err)
+		return
+	}
+	defer teardown()
+	fdb := &verifFailDB{DB: rawDb}
+	w, err := NewWalletManager(&mockServer{chainDb}, fdb, cfg, config.ChainParams, pubPassphrase)
+	if err != nil {
+		fmt.Println("VERIF-C20 setup-failed", err)
+		return
+	}
+	id, _, _, err := w.CreateWallet(privPassphrase, "", defaultBitSize)
+	if err != nil {
+		fmt.Println("VERIF-C20 setup-failed", err)
+		return
+	}
+	h := w.ntfnsHandler
+	h.quitWg.Add(1)
+	followerDone := make(chan struct{})
+	go func() { handle(h); close(followerDone) }() // the real follower
+	atomic.StoreInt32(&fdb.armed, 1)
+	taskDone := make(chan struct{})
+	go func() { ` + call + `; close(taskDone) }() // the real task function, its database transaction fails
+	select {
+	case <-taskDone:
+	case <-time.After(5 * time.Second):
+		fmt.Println("VERIF-C20 task-did-not-return")
+		return
+	}
+	atomic.StoreInt32(&fdb.armed, 0)
+	probe := make(chan struct{})
+	go func() {
+		if h.suspend(false, "", nil) {
+			h.resume(false, "", nil)
+		}
+		close(probe)
+	}()
+	select {
+	case <-probe:
+		fmt.Println("VERIF-C20 not-blocked")
+		close(h.quit)
+		return
+	case <-time.After(2 * time.Second):
+	}
+	close(h.quit) // Stop
+	select {
+	case <-followerDone:
+		fmt.Println("VERIF-C20 not-blocked")
+	case <-time.After(2 * time.Second):
+		fmt.Println("VERIF-C20 blocked-forever")
+	}
+}
+`
+	tf := filepath.Join(tmp, "zz_verif_c20_test.go")
+	os.WriteFile(tf, []byte(test), 0o644)
+	repl := map[string]string{filepath.Join(repoRoot, "masswallet", "zz_verif_c20_test.go"): tf}
+	js, _ := json.Marshal(map[string]interface{}{"Replace": repl})
+	ov := filepath.Join(tmp, "overlay.json")
+	os.WriteFile(ov, js, 0o644)
+	cmd := exec.Command("go", "test", "-tags", "verif", "-vet=off", "-count=1", "-v", "-run", "^TestVerifC20Replay$", "-overlay", ov, "-timeout", "180s", ".")
+	cmd.Dir = filepath.Join(repoRoot, "masswallet")
+	cmd.Env = append(os.Environ(), "GOFLAGS=-mod=mod", "GOPROXY=off", "GOSUMDB=off", "GOTOOLCHAIN=local")
+	out, _ := cmd.CombinedOutput()
+	txt := string(out)
+	switch {
+	case strings.Contains(txt, "VERIF-C20 blocked-forever"):
+		return true, "native replay: after the real " + fn + "() failed in its database transaction the real handle() stayed parked: a new suspend() was still blocked after 2s and handle() did not return on close(quit)"
+	case strings.Contains(txt, "VERIF-C20 not-blocked"):
+		return false, "native replay: follower not parked after a failed " + fn + "()"
 	}
 	return false, "native replay inconclusive: " + tail(txt, 6)
 }
